@@ -170,10 +170,15 @@ def h_algebra(ctx, cfg):
     if op == 'merge' and len(fns) == 2:
         # a name that is positional-or-keyword in one input and keyword-only in the other is the same logical
         # parameter (merge reports it keyword-only): both inputs are its sources
+        # -- unless the positional-or-keyword one is matched by position with a positional parameter of the other
+        # input (then it is that parameter it is merged with, and the other's keyword-only one meets **kwargs)
         kinds = [dict(zip(s.names, s.kinds)) for s in specs]
+        npos = [sum(1 for k in s.kinds if k < 2) for s in specs]
         for p in R.parameters.values():
             ks = sorted(k.get(p.name, -1) for k in kinds)
-            if p.kind == p.KEYWORD_ONLY and ks == [1, 2]:
+            j = 0 if kinds[0].get(p.name) == 1 else 1
+            if p.kind == p.KEYWORD_ONLY and ks == [1, 2] and (
+                    [nm for nm, k in zip(specs[j].names, specs[j].kinds) if k < 2].index(p.name) >= npos[1 - j]):
                 got = R.sources.get(p.name, [])
                 ctx.require('pok-and-kwo-contributors-both-listed[merge]',
                             len(got) == 2 and all(any(g is f for g in got) for f in fns),
@@ -237,6 +242,9 @@ def plan(tier):
                  bounds='merge / embed (4 flag combinations, inner stars named like the outer\'s or not) / forwards on pairs with <=2 named in total; mask, partial, modifiers on <=2 named',
                  min_nontrivial=500, must_reach=['well-formed', 'depths', 'exactly-the-declaring-inputs',
                                                  'wrapper-object-replaces-wrapped-function']),
+            dict(name='merge-triples', fn='h_algebra', depth=9, budget_s=180, cfg=dict(K=1, total=2, triples=True, ops=['merge']),
+                 bounds='merge of 2 or 3 signatures with <=1 named parameter each, <=2 in total (provenance through an n-ary merge)',
+                 min_nontrivial=500, must_reach=['exactly-the-declaring-inputs']),
             dict(name='discovery-grammar', fn='h_discovery', depth=10, budget_s=300, cfg=_c06.QUICK, bounds=_c06.QUICK_BOUNDS,
                  min_nontrivial=500, must_reach=['well-formed', 'outermost-has-depth-0', 'callee-deeper-than-wrapper']),
             dict(name='corpus-quick', fn='h_corpus', depth=8, budget_s=200, cfg=dict(thorough=False),
